@@ -217,6 +217,7 @@ struct Counters {
     gen_mismatch_skips: u64,
     evals: u64,
     fen_reloads: u64,
+    twins: u64,
     takebacks: u64,
     shuffles: u64,
     games: u64,
@@ -248,6 +249,7 @@ impl Counters {
             ("skipped_generation_mismatch", self.gen_mismatch_skips),
             ("evaluations", self.evals),
             ("fen_reloads", self.fen_reloads),
+            ("fens_compared_with_a_twin_reached_by_play", self.twins),
             ("takebacks", self.takebacks),
             ("shuffles", self.shuffles),
             ("games", self.games),
@@ -877,6 +879,9 @@ impl<'a> Lock<'a> {
                 ep_files.push(f as i8);
             }
         }
+        // the walker's current position exactly as it stands: the one variant with a true twin
+        let exact = p.fen();
+        self.c07_one(&exact, &p, &mut rng);
         for _ in 0..4 {
             let mut q = p.clone();
             // random subset of the admissible rights
@@ -944,48 +949,68 @@ impl<'a> Lock<'a> {
         if !b.verif_position_keys().is_empty() {
             self.viol("fen-record-not-empty", format!("FEN '{fen}': a freshly loaded position remembers earlier positions"));
         }
-        // behaves like the same position reached by play: build the twin by play when this FEN is
-        // exactly the walker's current position (same rights/ep), else compare with the oracle only
-        let oc = eng::oracle_codes(q);
-        let ec = eng::legal_codes(&mut b.clone());
-        if ec != oc {
-            self.viol("fen-legal-moves", format!("FEN '{fen}': legal moves differ from the rules after loading"));
-            return;
-        }
-        let same_as_played = q.ident() == self.p().ident();
-        if same_as_played {
-            if key_u64(b.zkey) != key_u64(self.b.zkey) {
+        // "From then on behaves identically to the same position reached by play": decided against
+        // the engine's OWN board reached by play whenever this FEN is exactly the walker's current
+        // position (a true twin exists). For the perturbed variants no twin exists; there the loaded
+        // board is checked for internal consistency only (key, take-back to the loaded root), so
+        // that rule or bookkeeping faults (C01, C03) are not reported under C07.
+        let mut twin: Option<Board> = if *q == *self.p() { Some(self.b.clone()) } else { None };
+        if let Some(t) = &twin {
+            self.local.twins += 1;
+            if let Some(d) = eng::diff(&eng::observe(&b), &eng::observe(t)) {
+                self.viol("fen-vs-play-state", format!("FEN '{fen}': loaded position differs from the same position reached by play: {d}"));
+                return;
+            }
+            if key_u64(b.zkey) != key_u64(t.zkey) {
                 self.viol("fen-key-vs-play", format!("FEN '{fen}': key differs from the key of the same position reached by play"));
             }
+            if eng::legal_codes(&mut b.clone()) != eng::legal_codes(&mut t.clone()) {
+                self.viol("fen-legal-moves-vs-play", format!("FEN '{fen}': legal moves differ from those of the same position reached by play"));
+                return;
+            }
+        } else if eng::legal_codes(&mut b.clone()) != eng::oracle_codes(q) {
+            // components are right (checked above) but the moves are not those of the rules: C01's business
+            out::inconclusive("C07: loaded position has the written components but its legal moves differ from the rules (C01's business)", 1);
+            return;
         }
-        // play 1..3 random moves on the loaded board and on the oracle, compare after each, unmake to root
+        // play 1..3 random moves, compare with the twin after each, then take everything back
         let root = b.clone();
-        let mut cur = q.clone();
         let mut played = 0;
         for _ in 0..(1 + rng.below(3)) {
-            let om = cur.legal_moves();
-            if om.is_empty() {
+            let plies = b.clone().get_legal_moves();
+            if plies.is_empty() {
                 break;
             }
-            let m = *rng.pick(&om);
-            let plies = b.clone().get_legal_moves();
-            let Some(ply) = plies.iter().find(|p| eng::ply_matches(p, &m)) else { break };
-            b.make_move(*ply);
-            cur = cur.make(&m);
+            let ply = *rng.pick(&plies);
+            let name = ply.to_notation();
+            if let Some(t) = twin.as_mut() {
+                let tp = t.clone().get_legal_moves();
+                let Some(same) = tp.iter().find(|x| eng::ply_code(x) == eng::ply_code(&ply)) else {
+                    self.viol("fen-then-play-legal-moves", format!("FEN '{fen}': after {played} moves the loaded board offers {name}, the board reached by play does not"));
+                    return;
+                };
+                t.make_move(*same);
+            }
+            b.make_move(ply);
             played += 1;
-            let e = eng::observe(&b);
-            if let Some(d) = eng::diff(&e, &cur) {
-                let what = d.split(':').next().unwrap_or("").split(' ').next().unwrap_or("").to_string();
-                self.viol(&format!("fen-then-play-{what}"), format!("FEN '{fen}' then {}: {d}", m.uci()));
-                return;
-            }
             if key_u64(b.zkey) != key_u64(ZKey::from(&b)) {
-                self.viol("fen-then-play-key", format!("FEN '{fen}' then {}: incremental key != from-scratch key", m.uci()));
+                self.viol("fen-then-play-key", format!("FEN '{fen}' then {name}: incremental key != from-scratch key"));
                 return;
             }
-            if eng::legal_codes(&mut b.clone()) != eng::oracle_codes(&cur) {
-                self.viol("fen-then-play-legal-moves", format!("FEN '{fen}' then {}: legal moves differ from the rules", m.uci()));
-                return;
+            if let Some(t) = &twin {
+                if let Some(d) = eng::diff(&eng::observe(&b), &eng::observe(t)) {
+                    let what = d.split(':').next().unwrap_or("").split(' ').next().unwrap_or("").to_string();
+                    self.viol(&format!("fen-then-play-{what}"), format!("FEN '{fen}' then {name}: differs from the same game continued on the board reached by play: {d}"));
+                    return;
+                }
+                if key_u64(b.zkey) != key_u64(t.zkey) {
+                    self.viol("fen-then-play-key-vs-play", format!("FEN '{fen}' then {name}: key differs from the board reached by play"));
+                    return;
+                }
+                if eng::legal_codes(&mut b.clone()) != eng::legal_codes(&mut t.clone()) {
+                    self.viol("fen-then-play-legal-moves", format!("FEN '{fen}' then {name}: legal moves differ from the board reached by play"));
+                    return;
+                }
             }
         }
         for _ in 0..played {
